@@ -260,6 +260,8 @@ Theorem no_deadlock s : reachable s ->
 Proof.
   intros Hr. destruct (reachable_inv s Hr) as [I1 I2 I3 I4 I5 I6].
   destruct (worker s) as [| |wi wn wo|] eqn:Ew.
+  - (* Run has not started the strand goroutine yet: starting it is enabled *)
+    right. exists LRunStart. eexists. split; [discriminate|]. cbn [step]. rewrite Ew. reflexivity.
   - (* worker idle *)
     destruct (first_unfinished 0 (callers s)) as [[i c]|] eqn:Ef.
     + apply first_unfinished_some in Ef as (_ & Hn & Hf). rewrite Nat.sub_0_r in Hn.
@@ -308,7 +310,7 @@ Fixpoint callers_measure (l : list caller) : nat :=
   match l with [] => 0 | c :: r => caller_measure c + callers_measure r end.
 Definition measure (s : state) : nat :=
   callers_measure (callers s)
-  + match worker s with WIdle => 1 | WRun _ _ _ => 2 | WExited => 0 end
+  + match worker s with WNotStarted => 3 | WIdle => 1 | WRun _ _ _ => 2 | WExited => 0 end
   + match shut s with SNot => 5 | SQuitClosed => 4 | SListener => 3 | SDisconnect => 2 | SWaitDone => 1 | SFinished => 0 end
   + (if run_done s then 0 else 1).
 
@@ -367,6 +369,9 @@ Proof.
   - destruct (shut s) eqn:Es; try discriminate. destruct (worker s) eqn:Ew; try discriminate. inv_some H. cbn. rewrite ?Ew. lia.
   - destruct (shut s) eqn:Es; try discriminate. inv_some H. cbn. lia.
   - destruct (shut s) eqn:Es; try discriminate. inv_some H. cbn. lia.
+  - (* LRunStart *) destruct (worker s) eqn:Ew; try discriminate. inv_some H. cbn. lia.
+  - (* LRunFail *) destruct (worker s) eqn:Ew; try discriminate; destruct (run_done s) eqn:Er; try discriminate;
+      inv_some H; cbn; rewrite ?Ew; lia.
   - destruct (worker s) eqn:Ew; try discriminate.
     destruct (quit s); cbn in H; [|discriminate]. destruct (run_done s) eqn:Er; cbn in H; [discriminate|].
     destruct (forallb (fun c => negb (handler c) || finished c) (callers s)); [|discriminate].
@@ -383,3 +388,8 @@ Proof.
   - destruct (step s l) as [s1|] eqn:E; [|discriminate].
     apply step_decreases in E. specialize (IH s1 s' H). cbn [length]. lia.
 Qed.
+
+(* Run cannot return its listen error before the strand goroutine exists: whatever
+   happens to Run, the goroutine that closes strandDone has been started *)
+Theorem run_return_implies_strand_started s : reachable s -> run_done s = true -> worker s <> WNotStarted.
+Proof. intros Hr. exact (inv_run_done s (reachable_inv s Hr)). Qed.
